@@ -81,36 +81,50 @@ pub fn enc_ctl(args: &[&str]) -> String {
         Some("CP") if args.len() == 5 => {
             let (sid, uid, nf) = (args[1].parse().ok(), args[2].parse().ok(), args[3].parse().ok());
             match (sid, uid, nf, parse_updates(args[4])) {
-                (Some(sid), Some(uid), Some(nf), Some(fields)) => crate::wire::ser(&changeprog::Msg {
-                    sid,
-                    program_uid: uid,
-                    num_fields: nf,
-                    fields,
-                }),
+                (Some(sid), Some(uid), Some(nf), Some(fields)) => {
+                    let mk = |fields: Vec<(Reg, u64)>| changeprog::Msg {
+                        sid,
+                        program_uid: uid,
+                        num_fields: nf,
+                        fields,
+                    };
+                    let r = crate::wire::roomy(&fields);
+                    crate::wire::ser2(&mk(fields), &mk(r))
+                }
                 _ => return "BADARG".into(),
             }
         }
         Some("UF") if args.len() == 4 => {
             let (sid, nf) = (args[1].parse().ok(), args[2].parse::<u8>().ok());
             match (sid, nf, parse_updates(args[3])) {
-                (Some(sid), Some(nf), Some(fields)) => crate::wire::ser(&update_field::Msg {
-                    sid,
-                    num_fields: nf,
-                    fields,
-                }),
+                (Some(sid), Some(nf), Some(fields)) => {
+                    let mk = |fields: Vec<(Reg, u64)>| update_field::Msg {
+                        sid,
+                        num_fields: nf,
+                        fields,
+                    };
+                    let r = crate::wire::roomy(&fields);
+                    crate::wire::ser2(&mk(fields), &mk(r))
+                }
                 _ => return "BADARG".into(),
             }
         }
         Some("IN") if args.len() == 7 => {
             let v: Option<Vec<u32>> = args[1..5].iter().map(|s| s.parse().ok()).collect();
             match (v, build_bin(args[5], args[6])) {
-                (Some(v), Some(bin)) => crate::wire::ser(&install::Msg {
-                    sid: v[0],
-                    program_uid: v[1],
-                    num_events: v[2],
-                    num_instrs: v[3],
-                    instrs: bin,
-                }),
+                (Some(v), Some(bin)) => {
+                    let mk = |bin: Bin| install::Msg {
+                        sid: v[0],
+                        program_uid: v[1],
+                        num_events: v[2],
+                        num_instrs: v[3],
+                        instrs: bin,
+                    };
+                    let mut r = bin.clone();
+                    r.events = crate::wire::roomy(&bin.events);
+                    r.instrs = crate::wire::roomy(&bin.instrs);
+                    crate::wire::ser2(&mk(bin), &mk(r))
+                }
                 _ => return "BADARG".into(),
             }
         }
